@@ -132,7 +132,12 @@ func NewVC(w *World, fn *ssa.Function) *VC {
 	return vc
 }
 
-func (vc *VC) note(s string) { vc.notes[s] = true }
+func (vc *VC) note(s string) {
+	if vc.dry > 0 {
+		return // dry runs (write summaries) are not part of the verified text
+	}
+	vc.notes[s] = true
+}
 
 func (vc *VC) oblige(st *State, kind, name, src string, goal Term) {
 	if vc.dry > 0 {
